@@ -156,6 +156,8 @@ def compare(rec, clause, name_a, name_b, spec_a, spec_b, table, va, vb, info, re
         key = f'{ID}|{clause}|{name_a}~{name_b}|{info["shape"].split(",")[0]}'
         if info.get('availability') in AVFORM_TAG:
             key += '|availabilities-as-' + AVFORM_TAG[info['availability']]
+        if info.get('utilities'):
+            key += '|' + info['utilities']
         case = dict(part='pair', clause=clause, a=spec_a, b=spec_b, names=[name_a, name_b], group=grp, info=info)
         rec.violation(key, f'{clause}: {name_a} = {va[g].tolist()} but {name_b} = {vb[g].tolist()} at u={grp["u"]} '
                            f'avail={grp["avail"]} (alts {table.alts}, {info})', case,
@@ -243,6 +245,50 @@ def build_av6(alts, form, pat):
         else:
             raise ValueError(form)
     return av
+
+
+# utilities of alternatives that are NOT available: the statement quantifies over all utilities x availabilities, and no formula
+# of the family contains the utility of an unavailable alternative.  In real data the attributes of such an alternative
+# carry a "not applicable" code (99999, -1, ...), so that its utility is an arbitrary - typically extreme - number.  Per
+# alphabet (VERIF_SEED): two codes of opposite sign, far outside the range in which exp() is finite.  (99999 itself is not in
+# the alphabet: it is the engine's documented missing-value code - a Variable holding it raises as soon as it is read.)
+NA_CODES = [[-1000.0, 88888.0], [-99999.0, 800.0], [-750.0, 1.0e6], [-1.0e5, 1500.0], [-5000.0, 9999.0]]
+UTAG = 'not-applicable-utility-codes-of-unavailable-alternatives'
+
+
+def na_codes(seed):
+    return NA_CODES[int(seed) % len(NA_CODES)]
+
+
+def na_table(alts, us, pats, codes):
+    """Table whose groups are: every availability pattern of `pats` with an unavailable alternative x every placement of
+    the codes (each single unavailable alternative; all unavailable alternatives together, signs alternating) x every code
+    (rotation of `codes`) x every utility vector of `us` for the other alternatives.  Only consistent (utility vector,
+    pattern) pairs are groups: an AVAILABLE alternative never gets a code."""
+    sel = [list(p) for p in pats if not all(p)]
+    us_ext, groups = [], []
+    for pi, pat in enumerate(sel):
+        unav = [k for k in range(len(alts)) if not pat[k]]
+        placements = [[k] for k in unav] + ([unav] if len(unav) > 1 else [])
+        for pl in placements:
+            for ci in range(len(codes)):
+                for bu in us:
+                    u = list(bu)
+                    for n, k in enumerate(pl):
+                        u[k] = codes[(ci + n) % len(codes)]
+                    groups.append((len(us_ext), pi, 0.0))
+                    us_ext.append(u)
+    t = B.Table(alts, us_ext, sel)
+    t.groups = groups
+    t.n_base = len(groups)
+    t.base_of = list(range(len(groups)))
+    return t
+
+
+def na_us(base_us, J):
+    """utility vectors of the available alternatives in the tables of na_table: J = 2 all four, above every second one
+    (J = 3: four, J = 4: eight -> every fourth: four)."""
+    return base_us if J == 2 else base_us[1::2] if J == 3 else base_us[1::4]
 
 
 def family_entries(family):
@@ -401,14 +447,17 @@ class Evaluator:
 
 
 # --------------------------------------------------------------------------- (a)-(d) for nested structures
-def check_nested_structure(alph, alts, alone, nests, mus, table, rec, tier, si=0, moved=None, avf=None, light=False):
+def check_nested_structure(alph, alts, alone, nests, mus, table, rec, tier, si=0, moved=None, avf=None, light=False, utag=None):
     """moved = None: the forms rotate with the structure (as before).  moved = initial-value mode ('zero'|'one'|'comp'):
     every nest parameter, scale and degree of membership is a free parameter evaluated away from its initial value, the
     whole memberships are written as a full matrix with explicit zeros; same clauses, plus cnlmu(mu=1) == cnl.
     avf = one of AVFORMS: the availability conditions of every model of the clauses (logit included) are written in that
-    form (one-pattern table).  light: without the scaled versions mu != 1 of clauses (b) and (d)."""
+    form (one-pattern table).  light: without the scaled versions mu != 1 of clauses (b) and (d).
+    utag: label of a special utility alphabet of the table (UTAG), part of the case and finding keys."""
     ev = Evaluator(table, rec)
     info = dict(shape=shape(alone, nests), alone=list(alone), nests=[list(n) for n in nests], mus=list(mus))
+    if utag:
+        info['utilities'] = utag
     whole = [{a: 1.0 for a in n} for n in nests]
     muform = B.MUFORMS[si % 3]          # float / fixbeta / numeric
     pf = B.PFORMS[si % 4]               # nest parameters as Numeric / fixed Beta / free Beta / float (both syntaxes)
@@ -472,12 +521,14 @@ def check_nested_structure(alph, alts, alone, nests, mus, table, rec, tier, si=0
                             ev(Cmt), ev(Cm), dict(info, mu=mu), rel=1e-13)
 
 
-def check_cnl_structure(alph, alts, alone, nests, mus, table, rec, tier, si=0, moved=None, avf=None):
+def check_cnl_structure(alph, alts, alone, nests, mus, table, rec, tier, si=0, moved=None, avf=None, utag=None):
     """(c) and (d) for genuinely cross-nested structures (moved, avf: see check_nested_structure)."""
     ev = Evaluator(table, rec)
     cross = any(0.0 < a < 1.0 for n in nests for a in n.values())
     info = dict(shape='alone=' + ('yes' if alone else 'no') + ',cross=' + ('yes' if cross else 'no'), alone=list(alone),
                 nests=[dict(n) for n in nests], mus=list(mus))
+    if utag:
+        info['utilities'] = utag
     muform = B.MUFORMS[si % 3]
     pf = B.PFORMS[si % 4]
     af = B.ALPHAFORMS[si % 3]
@@ -506,11 +557,13 @@ def check_cnl_structure(alph, alts, alone, nests, mus, table, rec, tier, si=0, m
 
 
 # --------------------------------------------------------------------------- every public entry point
-def check_entry_points(alph, alts, alone, nests, mus, table, rec, avf='var', si=0):
+def check_entry_points(alph, alts, alone, nests, mus, table, rec, avf='var', si=0, utag=None):
     """Clauses (a)-(d) for every public name of the family (ENTRIES), each compared with the canonical unscaled /
     scaled nested logit (or logit) built by the snake_case functions with plain float parameters."""
     ev = Evaluator(table, rec)
     info = dict(shape=shape(alone, nests), alone=list(alone), nests=[list(n) for n in nests], mus=list(mus), availability=avf)
+    if utag:
+        info['utilities'] = utag
     whole = [{a: 1.0 for a in n} for n in nests]
     unit = all(m == 1.0 for m in mus)
     scale = alph['scale'][1]
@@ -644,20 +697,24 @@ def eval_generating(alts, alone, nests, mus, table, syntax, avform, uform='betav
 
 
 def check_generating(alph, alts, alone, nests, mus, table, rec, syntax='obj', avform='var', uform='betavar', pform='float',
-                     entries=None, init='zero'):
+                     entries=None, init='zero', utag=None):
     """entries: one of GEN_ENTRIES (None = the snake_case functions); the names appear in the finding keys."""
     import numpy as np
     J = len(alts)
     gen_name, terms_name, terms_mu = entries or GEN_ENTRIES[0]
     terms_tag = terms_name + ('' if terms_mu is None else '(mu=1)')
     xcase = {} if entries is None else dict(entries=list(entries), init=init)
+    utail = ''
+    if utag:
+        xcase = dict(xcase, utilities=utag)
+        utail = '|' + utag
     try:
         Gv, grad, T = eval_generating(alts, alone, nests, mus, table, syntax, avform, uform, pform, entries, init)
     except Exception as e:
         if isinstance(e, RuntimeError):
             rec.retire = True
         names = '' if entries is None else f'{gen_name}/{terms_tag}|'
-        rec.violation(f'{ID}|generating-function-raises-{type(e).__name__}|{names}alone={"yes" if alone else "no"}|nests-as-{syntax}',
+        rec.violation(f'{ID}|generating-function-raises-{type(e).__name__}|{names}alone={"yes" if alone else "no"}|nests-as-{syntax}{utail}',
                       f'{gen_name} / {terms_tag} raised {type(e).__name__}: {str(e)[:300]} '
                       f'(alone={list(alone)} nests={[list(n) for n in nests]} mus={list(mus)})',
                       dict(part='gen', alts=list(alts), alone=list(alone), nests=[list(n) for n in nests], mus=list(mus),
@@ -671,6 +728,8 @@ def check_generating(alph, alts, alone, nests, mus, table, rec, syntax='obj', av
                 syntax=syntax, avform=avform, uform=uform, pform=pform)
     if entries is not None:
         info = dict(info, entries=list(entries), init=init)
+    if utag:
+        info = dict(info, utilities=utag)
     ref_nests = list(zip(mus, nests))
     interesting = bool(alone) or any(m != 1.0 for m in mus)
     done = set()
@@ -694,7 +753,7 @@ def check_generating(alph, alts, alone, nests, mus, table, rec, syntax='obj', av
         if all(avd[a] for a in alone):
             if not R.close(float(Gv[g]), Gref, REL, ABS):
                 ok = False
-                rec.violation(f'{ID}|generating-function-differs-from-closed-form|{gen_name}|{alone_tag}|{avail_tag}',
+                rec.violation(f'{ID}|generating-function-differs-from-closed-form|{gen_name}|{alone_tag}|{avail_tag}{utail}',
                               f'{gen_name} = {Gv[g]!r} but G(e^V) = {Gref!r} at V={V} avail={pat} '
                               f'(alone={list(alone)} nests={[list(n) for n in nests]} mus={list(mus)}, nests as {syntax})',
                               case, expected=Gref, observed=float(Gv[g]))
@@ -711,7 +770,7 @@ def check_generating(alph, alts, alone, nests, mus, table, rec, syntax='obj', av
             lref = math.log(Giref[a])
             if not R.close(t, lref, REL, 1e-11):
                 ok = False
-                rec.violation(f'{ID}|published-term-differs-from-closed-form-log-derivative|{terms_tag}|{alone_tag}|{avail_tag}',
+                rec.violation(f'{ID}|published-term-differs-from-closed-form-log-derivative|{terms_tag}|{alone_tag}|{avail_tag}{utail}',
                               f'{terms_tag}[{a}] = {t!r} but ln dG/dy = {lref!r} at V={V} avail={pat} ({info})',
                               dict(case, alt=a), expected=lref, observed=t)
             if not R.close(lg, t, REL, 1e-11):
@@ -719,7 +778,7 @@ def check_generating(alph, alts, alone, nests, mus, table, rec, syntax='obj', av
                 where = 'outside-every-nest' if a in alone else 'in-nest'
                 names = '' if entries is None else f'{gen_name}/{terms_tag}|'
                 rec.violation(f'{ID}|published-term-is-not-log-derivative-of-published-generating-function|{names}alternative-{where}|'
-                              f'{avail_tag}',
+                              f'{avail_tag}{utail}',
                               f'ln(d {gen_name} / dV_{a}) - V_{a} = {lg!r} (engine gradient {d!r}) but '
                               f'{terms_tag}[{a}] = {t!r} (closed form {lref!r}) at V={V} avail={pat} '
                               f'(alone={list(alone)} nests={[list(n) for n in nests]} mus={list(mus)}, nests as {syntax})',
@@ -839,7 +898,36 @@ def tasks(tier, seed):
         n = len(R.cnl_structures(alph['labels'][:J], M, alph['splits'][:ns]))
         for ch in B._chunks(range(n), per):
             t.append(dict(part='avforms_cnl', J=J, M=M, ns=ns, structs=ch, seed=seed, tier=tier))
+    # utilities of unavailable alternatives that carry "not applicable" codes (extreme values of both signs)
+    for J in range(2, Jmax + 1):
+        structs = R.nested_structures(alph['labels'][:J])
+        n = len(structs)
+        for ch in B._chunks(range(n), ({2: 5, 3: 5} if quick else {2: 3, 3: 2, 4: 4})[J]):
+            t.append(dict(part='na', J=J, structs=ch, seed=seed, tier=tier))
+        for ch in B._chunks(range(n), ({2: 5, 3: 8} if quick else {2: 5, 3: 4, 4: 7})[J]):
+            t.append(dict(part='na_gen', J=J, structs=ch, seed=seed, tier=tier))
+        for ch in B._chunks(na_entry_structures(tier, seed, J, n), ({2: 3, 3: 2} if quick else {2: 2, 3: 1, 4: 2})[J]):
+            t.append(dict(part='na_entry', J=J, structs=ch, seed=seed, tier=tier))
+        if not quick and J <= 3:
+            for ch in B._chunks(range(n), {2: 3, 3: 1}[J]):
+                t.append(dict(part='na_avforms', J=J, structs=ch, seed=seed, tier=tier))
+    for J, M, ns, per in avform_cnl_config(tier):
+        n = len(R.cnl_structures(alph['labels'][:J], M, alph['splits'][:ns]))
+        for ch in B._chunks(range(n), per * 3):
+            t.append(dict(part='na_cnl', J=J, M=M, ns=ns, structs=ch, seed=seed, tier=tier))
     return t
+
+
+def na_entry_structures(tier, seed, J, n):
+    """nest structures of the part 'na_entry' (every public entry point on the tables of na_table): quick - J = 2 all, J = 3
+    every fifth one (rotating with the seed: the five seeds together reach all of them) and the single nest holding everything,
+    in both cases with ONE of the two parameter assignments (alternating with structure and seed);
+    thorough - J <= 3 all, J = 4 every fourth structure (rotating with the seed), every assignment."""
+    if tier == 'quick':
+        return [si for si in range(n) if J == 2 or (si + int(seed)) % 5 == 0 or si == 1]
+    if J == 4:
+        return [si for si in range(n) if (si + int(seed)) % 4 == 0]
+    return list(range(n))
 
 
 def assignments(alph, n, si, full):
@@ -1051,6 +1139,68 @@ def run_task(task):
                                          (B.PFORMS + ['movedbeta'])[kk % 5] if entries else B.PFORMS[kk % 4], entries,
                                          INIT_MODES[kk % 3])
         rec.sample(dict(part='avforms_gen', alts=alts, first=structs[task['structs'][0]], availability_forms=AVFORMS))
+    elif task['part'] in ('na', 'na_gen', 'na_entry', 'na_avforms'):
+        # the utility of an unavailable alternative is a "not applicable" code: every clause, every structure
+        structs = R.nested_structures(alts)
+        base = _table(alph, J, tier, small=True)
+        codes = na_codes(task['seed'])
+        us = na_us(base.us, J)
+        nat = na_table(alts, us, base.pats, codes)
+        full = tier != 'quick' and J <= 3
+        part = task['part']
+        for si in task['structs']:
+            alone, nests = structs[si]
+            for mi, mus in enumerate(assignments(alph, len(nests), si, full=full)):
+                k = si + mi
+                if part == 'na':
+                    check_nested_structure(alph, alts, alone, nests, mus, nat, rec, tier, k, light=not full, utag=UTAG)
+                    if tier != 'quick' and nests and (J <= 3 or mi == si % 2):
+                        check_nested_structure(alph, alts, alone, nests, mus, nat, rec, tier, k, moved=INIT_MODES[k % 3],
+                                               light=True, utag=UTAG)
+                elif part == 'na_entry':
+                    if tier == 'quick' and nests and mi != (si + int(task['seed'])) % 2:
+                        continue
+                    check_entry_points(alph, alts, alone, nests, mus, nat, rec, 'var', k, utag=UTAG)
+                elif part == 'na_gen':
+                    for e in (0, 1 + k % (len(GEN_ENTRIES) - 1)):
+                        kk = k + e
+                        entries = GEN_ENTRIES[e] if e else None
+                        check_generating(alph, alts, alone, nests, mus, nat, rec, 'obj' if kk % 2 == 0 else 'tuple', 'var',
+                                         'betavar', (B.PFORMS + ['movedbeta'])[kk % 5] if entries else B.PFORMS[kk % 4], entries,
+                                         INIT_MODES[kk % 3], utag=UTAG)
+                else:
+                    # the availability conditions written without data columns as well: one table per availability pattern
+                    if mi > 1:
+                        continue
+                    for pi, pat in enumerate(p for p in base.pats if not all(p)):
+                        t1 = na_table(alts, us, [pat], codes)
+                        kk = k + pi
+                        two = avforms_for(kk, False)
+                        for fi, avf in enumerate(two if J == 2 else [two[kk % 2]]):
+                            check_nested_structure(alph, alts, alone, nests, mus, t1, rec, tier, k, avf=avf, light=True, utag=UTAG)
+                        avf = two[(kk + 1) % 2]
+                        entries = None if kk % 2 == 0 else GEN_ENTRIES[1 + (kk // 2) % (len(GEN_ENTRIES) - 1)]
+                        check_generating(alph, alts, alone, nests, mus, t1, rec, 'obj' if kk % 4 < 2 else 'tuple', avf, 'betavar',
+                                         (B.PFORMS + ['movedbeta'])[kk % 5] if entries else B.PFORMS[kk % 4], entries,
+                                         INIT_MODES[kk % 3], utag=UTAG)
+        rec.sample(dict(part=part, alts=alts, first=structs[task['structs'][0]], codes=codes, groups=len(nat.groups),
+                        example_group=nat.describe_group(len(nat.groups) - 1)))
+    elif task['part'] == 'na_cnl':
+        structs = R.cnl_structures(alts, task['M'], alph['splits'][:task['ns']])
+        base = _table(alph, J, tier, small=True)
+        codes = na_codes(task['seed'])
+        nat = na_table(alts, na_us(base.us, J), base.pats, codes)
+        for si in task['structs']:
+            alone, nests = structs[si]
+            if not any(0.0 < a < 1.0 for n in nests for a in n.values()):
+                rec.count('cnl_structure_without_cross_membership_covered_by_nested_part')
+                continue
+            mus_list = B._cnl_mus(alph, task['M'], 'reduced')
+            mus = list(mus_list[si % len(mus_list)])
+            check_cnl_structure(alph, alts, alone, nests, mus, nat, rec, tier, si, utag=UTAG)
+            if tier != 'quick':
+                check_cnl_structure(alph, alts, alone, nests, mus, nat, rec, tier, si, moved=INIT_MODES[si % 3], utag=UTAG)
+        rec.sample(dict(part='na_cnl', alts=alts, M=task['M'], first=structs[task['structs'][0]], codes=codes))
     else:
         raise ValueError(task['part'])
     if _rss_mb() > WORKER_RSS_LIMIT_MB:
@@ -1074,7 +1224,7 @@ def replay(case):
         table = B.Table(case['alts'], [grp['u']], [grp['avail']])
         entries = tuple(case['entries']) if case.get('entries') else None
         check_generating(None, case['alts'], case['alone'], case['nests'], case['mus'], table, rec, case['syntax'],
-                         case['avform'], case['uform'], case['pform'], entries, case.get('init', 'zero'))
+                         case['avform'], case['uform'], case['pform'], entries, case.get('init', 'zero'), utag=case.get('utilities'))
         return rec.violations
     if case['part'] == 'raise':
         grp = case['group']
